@@ -512,6 +512,12 @@ let n_of_ascii a =
       (a0 :: (a1 :: (a2 :: (a3 :: (a4 :: (a5 :: (a6 :: (a7 :: [])))))))))
     a
 
+(** val hd : 'a1 -> 'a1 list -> 'a1 **)
+
+let hd default = function
+| [] -> default
+| x :: _ -> x
+
 (** val nth : nat -> 'a1 list -> 'a1 -> 'a1 **)
 
 let rec nth n0 l default =
@@ -5973,9 +5979,9 @@ let render_gkind = function
 
 (** val render_feature : nat -> ufeature -> char list **)
 
-let rec render_feature tab = function
+let rec render_feature tab0 = function
 | UFeature (ty, ref, fc, at_, gs) ->
-  append ('\n'::(tabs tab))
+  append ('\n'::(tabs tab0))
     (append (match ty with
              | Some t -> append t (' '::[])
              | None -> [])
@@ -5992,9 +5998,10 @@ let rec render_feature tab = function
               (str_concat
                 (map (fun g ->
                   let UGroup (k, cs) = g in
-                  append ('\n'::(tabs (S tab)))
+                  append ('\n'::(tabs (S tab0)))
                     (append (render_gkind k)
-                      (str_concat (map (render_feature (S (S tab))) cs)))) gs)))))))
+                      (str_concat (map (render_feature (S (S tab0))) cs))))
+                  gs)))))))
 
 (** val aggr_name : aggr -> char list **)
 
@@ -7591,6 +7598,711 @@ let afm_read_cst d =
            | Err e -> Err e)
         | Err e -> Err e)
      | Err e -> Err e)
+
+(** val nl : char list **)
+
+let nl =
+  '\n'::[]
+
+(** val tab : char list **)
+
+let tab =
+  '\t'::[]
+
+(** val tabs0 : nat -> char list **)
+
+let rec tabs0 = function
+| O -> []
+| S k -> append tab (tabs0 k)
+
+(** val w_safename : char list -> char list **)
+
+let w_safename s =
+  if str_forallb is_safechar s then s else quote s
+
+type sxf =
+| SxF of char list * sxitem list
+and sxitem =
+| SxSolitary of bool * sxf
+| SxGroup of z * z * sxf list
+
+(** val sx_name : sxf -> char list **)
+
+let sx_name = function
+| SxF (n0, _) -> n0
+
+type splot_doc = { sp_model_name : char list; sp_root : sxf;
+                   sp_clauses : (bool * char list) list list }
+
+(** val splot_tree : feature -> sxf **)
+
+let rec splot_tree = function
+| Feature (i, rs) ->
+  SxF (i.f_name,
+    (map (fun r ->
+      let Relation (mn, mx, cs) = r in
+      if rel_is_optional r
+      then (match cs with
+            | [] -> SxGroup (mn, mx, [])
+            | c :: _ -> SxSolitary (true, (splot_tree c)))
+      else if rel_is_mandatory r
+           then (match cs with
+                 | [] -> SxGroup (mn, mx, [])
+                 | c :: _ -> SxSolitary (false, (splot_tree c)))
+           else SxGroup (mn, mx, (map splot_tree cs))) rs))
+
+(** val splot_literal : ndata -> (bool * char list) result **)
+
+let splot_literal = function
+| DStr t ->
+  (match t with
+   | [] -> Ok (false, t)
+   | a::rest ->
+     (* If this appears, you're using Ascii internals. Please don't *)
+ (fun f c ->
+  let n = Char.code c in
+  let h i = (n land (1 lsl i)) <> 0 in
+  f (h 0) (h 1) (h 2) (h 3) (h 4) (h 5) (h 6) (h 7))
+       (fun b b0 b1 b2 b3 b4 b5 b6 ->
+       if b
+       then if b0
+            then Ok (false, t)
+            else if b1
+                 then if b2
+                      then if b3
+                           then Ok (false, t)
+                           else if b4
+                                then if b5
+                                     then Ok (false, t)
+                                     else if b6
+                                          then Ok (false, t)
+                                          else Ok (true, rest)
+                                else Ok (false, t)
+                      else Ok (false, t)
+                 else Ok (false, t)
+       else Ok (false, t))
+       a)
+| _ -> Err AttributeError
+
+(** val splot_clauses : ctc list -> (bool * char list) list list result **)
+
+let splot_clauses cs =
+  match mapM (fun c ->
+          match get_clauses c.c_ast with
+          | Ok cls -> mapM (mapM splot_literal) cls
+          | Err e -> Err e) cs with
+  | Ok l -> Ok (concat l)
+  | Err e -> Err e
+
+(** val splot_write : fm -> splot_doc result **)
+
+let splot_write m =
+  match splot_clauses m.ctcs with
+  | Ok cl ->
+    Ok { sp_model_name = (str_remove_char ' ' (name m.root)); sp_root =
+      (splot_tree m.root); sp_clauses = cl }
+  | Err e -> Err e
+
+(** val sx_none : (char list -> bool) -> sxf -> bool **)
+
+let rec sx_none _UU03c3_ = function
+| SxF (n0, items) ->
+  (&&) (negb (_UU03c3_ n0))
+    (forallb (fun it ->
+      match it with
+      | SxSolitary (_, c) -> sx_none _UU03c3_ c
+      | SxGroup (_, _, ms) -> forallb (sx_none _UU03c3_) ms) items)
+
+(** val sx_sem : (char list -> bool) -> sxf -> bool **)
+
+let rec sx_sem _UU03c3_ = function
+| SxF (n0, items) ->
+  (&&) (_UU03c3_ n0)
+    (forallb (fun it ->
+      match it with
+      | SxSolitary (opt, c) ->
+        if _UU03c3_ (sx_name c)
+        then sx_sem _UU03c3_ c
+        else (&&) opt (sx_none _UU03c3_ c)
+      | SxGroup (mn, mx, ms) ->
+        (&&)
+          (card_okb mn mx (length ms)
+            (Z.of_nat (length (filter (fun c -> _UU03c3_ (sx_name c)) ms))))
+          (forallb (fun c ->
+            if _UU03c3_ (sx_name c)
+            then sx_sem _UU03c3_ c
+            else sx_none _UU03c3_ c) ms)) items)
+
+(** val clause_true :
+    (char list -> bool) -> (bool * char list) list -> bool **)
+
+let clause_true _UU03c3_ cl =
+  existsb (fun l ->
+    if fst l then negb (_UU03c3_ (snd l)) else _UU03c3_ (snd l)) cl
+
+(** val sxfm_sat : (char list -> bool) -> splot_doc -> bool **)
+
+let sxfm_sat _UU03c3_ d =
+  (&&) (sx_sem _UU03c3_ d.sp_root)
+    (forallb (clause_true _UU03c3_) d.sp_clauses)
+
+(** val sx_label : char list -> char list **)
+
+let sx_label n0 =
+  append (w_safename n0)
+    (append (' '::('('::[])) (append (w_safename n0) (')'::[])))
+
+(** val card_star : z -> char list **)
+
+let card_star mx =
+  if Z.eqb mx (Zneg XH) then '*'::[] else z_to_string mx
+
+(** val sx_lines : sxf -> nat -> char list list **)
+
+let rec sx_lines f ntabs =
+  let SxF (_, items) = f in
+  flat_map (fun it ->
+    match it with
+    | SxSolitary (opt, c) ->
+      (append (tabs0 ntabs)
+        (append
+          (if opt then ':'::('o'::(' '::[])) else ':'::('m'::(' '::[])))
+          (sx_label (sx_name c)))) :: (sx_lines c (S ntabs))
+    | SxGroup (mn, mx, ms) ->
+      (append (tabs0 ntabs)
+        (append (':'::('g'::(' '::('['::[]))))
+          (append (z_to_string mn)
+            (append (','::[]) (append (card_star mx) (']'::[])))))) :: 
+        (flat_map (fun c ->
+          (append (tabs0 (S ntabs))
+            (append (':'::(' '::[])) (sx_label (sx_name c)))) :: (sx_lines c
+                                                                   (S (S
+                                                                   ntabs))))
+          ms)) items
+
+(** val render_splot : splot_doc -> char list **)
+
+let render_splot d =
+  str_join nl
+    (app
+      (('<'::('?'::('x'::('m'::('l'::(' '::('v'::('e'::('r'::('s'::('i'::('o'::('n'::('='::('"'::('1'::('.'::('0'::('"'::(' '::('e'::('n'::('c'::('o'::('d'::('i'::('n'::('g'::('='::('"'::('U'::('T'::('F'::('-'::('8'::('"'::(' '::('s'::('t'::('a'::('n'::('d'::('a'::('l'::('o'::('n'::('e'::('='::('"'::('n'::('o'::('"'::('?'::('>'::[])))))))))))))))))))))))))))))))))))))))))))))))))))))) :: (
+      (append
+        ('<'::('f'::('e'::('a'::('t'::('u'::('r'::('e'::('_'::('m'::('o'::('d'::('e'::('l'::(' '::('n'::('a'::('m'::('e'::('='::('"'::[])))))))))))))))))))))
+        (append d.sp_model_name ('"'::('>'::[])))) :: (('<'::('f'::('e'::('a'::('t'::('u'::('r'::('e'::('_'::('t'::('r'::('e'::('e'::('>'::[])))))))))))))) :: (
+      (append (':'::('r'::(' '::[]))) (sx_label (sx_name d.sp_root))) :: []))))
+      (app (sx_lines d.sp_root (S O))
+        (app
+          (('<'::('/'::('f'::('e'::('a'::('t'::('u'::('r'::('e'::('_'::('t'::('r'::('e'::('e'::('>'::[]))))))))))))))) :: (('<'::('c'::('o'::('n'::('s'::('t'::('r'::('a'::('i'::('n'::('t'::('s'::('>'::[]))))))))))))) :: []))
+          (app
+            (let rec go i = function
+             | [] -> []
+             | cl :: rest ->
+               (append tab
+                 (append ('C'::[])
+                   (append (z_to_string i)
+                     (append (':'::(' '::[]))
+                       (str_join (' '::('o'::('r'::(' '::[]))))
+                         (map (fun l ->
+                           if fst l
+                           then append ('~'::[]) (w_safename (snd l))
+                           else w_safename (snd l)) cl)))))) :: (go
+                                                                  (Z.add i
+                                                                    (Zpos XH))
+                                                                  rest)
+             in go (Zpos XH) d.sp_clauses)
+            (('<'::('/'::('c'::('o'::('n'::('s'::('t'::('r'::('a'::('i'::('n'::('t'::('s'::('>'::[])))))))))))))) :: (('<'::('/'::('f'::('e'::('a'::('t'::('u'::('r'::('e'::('_'::('m'::('o'::('d'::('e'::('l'::('>'::[])))))))))))))))) :: []))))))
+
+(** val splot_text : fm -> char list result **)
+
+let splot_text m =
+  match splot_write m with
+  | Ok d -> Ok (render_splot d)
+  | Err e -> Err e
+
+type pl =
+| PVar of char list
+| PNot of pl
+| PAnd of pl * pl
+| POr of pl * pl
+| PImp of pl * pl
+| PIff of pl * pl
+| PParen of pl
+
+(** val pl_eval : (char list -> bool) -> pl -> bool **)
+
+let rec pl_eval _UU03c3_ = function
+| PVar s -> _UU03c3_ s
+| PNot a -> negb (pl_eval _UU03c3_ a)
+| PAnd (a, b) -> (&&) (pl_eval _UU03c3_ a) (pl_eval _UU03c3_ b)
+| POr (a, b) -> (||) (pl_eval _UU03c3_ a) (pl_eval _UU03c3_ b)
+| PImp (a, b) -> implb (pl_eval _UU03c3_ a) (pl_eval _UU03c3_ b)
+| PIff (a, b) -> eqb (pl_eval _UU03c3_ a) (pl_eval _UU03c3_ b)
+| PParen a -> pl_eval _UU03c3_ a
+
+(** val render_pl : pl -> char list **)
+
+let rec render_pl = function
+| PVar s -> s
+| PNot a -> append ('n'::('o'::('t'::(' '::[])))) (render_pl a)
+| PAnd (a, b) ->
+  append (render_pl a)
+    (append (' '::('a'::('n'::('d'::(' '::[]))))) (render_pl b))
+| POr (a, b) ->
+  append (render_pl a) (append (' '::('o'::('r'::(' '::[])))) (render_pl b))
+| PImp (a, b) ->
+  append (render_pl a) (append (' '::('-'::('>'::(' '::[])))) (render_pl b))
+| PIff (a, b) ->
+  append (render_pl a)
+    (append (' '::('<'::('-'::('>'::(' '::[]))))) (render_pl b))
+| PParen a -> append ('('::[]) (append (render_pl a) (')'::[]))
+
+(** val pjoin : (pl -> pl -> pl) -> pl list -> pl -> pl **)
+
+let pjoin op l empty =
+  match l with
+  | [] -> empty
+  | x :: xs -> fold_left op xs x
+
+(** val combs : nat -> nat list -> nat list list **)
+
+let rec combs k l =
+  match k with
+  | O -> [] :: []
+  | S k' ->
+    (match l with
+     | [] -> []
+     | x :: xs -> app (map (fun x0 -> x :: x0) (combs k' xs)) (combs k xs))
+
+(** val pl_relation : char list -> relation -> pl result **)
+
+let pl_relation owner r =
+  let p = PVar owner in
+  let cs = map name (r_children r) in
+  let n0 = length cs in
+  if rel_is_mandatory r
+  then Ok (PIff (p, (PVar (hd [] cs))))
+  else if rel_is_optional r
+       then Ok (PImp ((PVar (hd [] cs)), p))
+       else if rel_is_or r
+            then Ok (PIff (p, (PParen
+                   (pjoin (fun x x0 -> POr (x, x0))
+                     (map (fun x -> PVar x) cs) p))))
+            else if rel_is_alternative r
+                 then Ok
+                        (pjoin (fun x x0 -> PAnd (x, x0))
+                          (map (fun i -> PParen (PIff ((PVar (nth i cs [])),
+                            (PParen
+                            (pjoin (fun x x0 -> PAnd (x, x0))
+                              (app
+                                (map (fun j -> PNot (PVar (nth j cs [])))
+                                  (filter (fun j -> negb (Nat.eqb j i))
+                                    (seq O n0))) (p :: [])) p))))) (seq O n0))
+                          p)
+                 else if Z.ltb (r_min r) Z0
+                      then Err ValueError
+                      else let card_max =
+                             if Z.eqb (r_max r) (Zneg XH)
+                             then Z.of_nat n0
+                             else r_max r
+                           in
+                           let ks =
+                             map (fun d -> add (Z.to_nat (r_min r)) d)
+                               (seq O
+                                 (Z.to_nat
+                                   (Z.sub (Z.add card_max (Zpos XH))
+                                     (r_min r))))
+                           in
+                           let combos =
+                             flat_map (fun k ->
+                               map (fun positives -> PParen
+                                 (pjoin (fun x x0 -> PAnd (x, x0))
+                                   (map (fun i ->
+                                     if existsb (Nat.eqb i) positives
+                                     then PVar (nth i cs [])
+                                     else PNot (PVar (nth i cs [])))
+                                     (seq O n0)) p)) (combs k (seq O n0))) ks
+                           in
+                           let combos' =
+                             match combos with
+                             | [] -> (PParen (PAnd (p, (PNot p)))) :: []
+                             | _ :: _ -> combos
+                           in
+                           let cip =
+                             pjoin (fun x x0 -> PAnd (x, x0))
+                               (map (fun c -> PParen (PImp ((PVar c), p))) cs)
+                               p
+                           in
+                           Ok (PAnd (cip, (PParen (PImp (p, (PParen
+                           (pjoin (fun x x0 -> POr (x, x0)) combos' p)))))))
+
+(** val pl_node : node -> pl result **)
+
+let rec pl_node = function
+| Node (d, l, r) ->
+  let operand = fun c ->
+    match c with
+    | Some x ->
+      (match pl_node x with
+       | Ok px -> Ok (if is_op x then PParen px else px)
+       | Err e -> Err e)
+    | None -> Err AttributeError
+  in
+  (match d with
+   | DOp o ->
+     (match o with
+      | NOT -> (match operand l with
+                | Ok a -> Ok (PNot a)
+                | Err e -> Err e)
+      | _ ->
+        (match operand l with
+         | Ok a ->
+           (match operand r with
+            | Ok b ->
+              (match o with
+               | REQUIRES -> Ok (PImp (a, b))
+               | EXCLUDES -> Ok (PImp (a, (PNot b)))
+               | AND -> Ok (PAnd (a, b))
+               | OR -> Ok (POr (a, b))
+               | XOR ->
+                 Ok (PAnd ((PParen (POr (a, b))), (PNot (PParen (PAnd (a,
+                   b))))))
+               | IMPLIES -> Ok (PImp (a, b))
+               | EQUIVALENCE -> Ok (PIff (a, b))
+               | _ -> Err ValueError)
+            | Err e -> Err e)
+         | Err e -> Err e))
+   | _ -> Ok (PVar (data_str d)))
+
+(** val pl_write : fm -> pl list result **)
+
+let pl_write m =
+  match mapM (fun pr -> pl_relation (name (fst pr)) (snd pr))
+          (subrelations_ctx m.root) with
+  | Ok rels_ ->
+    (match mapM (fun c -> pl_node c.c_ast)
+             (filter (fun c -> is_logical c.c_ast) m.ctcs) with
+     | Ok cs -> Ok ((PVar (name m.root)) :: (app rels_ cs))
+     | Err e -> Err e)
+  | Err e -> Err e
+
+(** val pl_sat : (char list -> bool) -> pl list -> bool **)
+
+let pl_sat _UU03c3_ d =
+  forallb (pl_eval _UU03c3_) d
+
+(** val pl_lines : fm -> char list list result **)
+
+let pl_lines m =
+  match pl_write m with
+  | Ok d -> Ok (map render_pl d)
+  | Err e -> Err e
+
+type cgroup =
+| GXor
+| GOr0
+| GMux
+| GCardC of z * z
+
+type clf =
+| Clf of cgroup option * char list * bool * bool
+   * (char list * char list) list * clf list
+
+type cexpr =
+| CxVar of char list
+| CxNot of cexpr
+| CxBin of char list * cexpr * cexpr
+| CxParen of cexpr
+
+type cdoc = { cd_attrdecls : (char list * char list) list; cd_root : 
+              clf; cd_ctcs : cexpr list; cd_instance_of : char list }
+
+(** val clafer_group : feature -> cgroup option **)
+
+let clafer_group f =
+  if feat_is_alternative_group f
+  then Some GXor
+  else if feat_is_or_group f
+       then Some GOr0
+       else if feat_is_cardinality_group f
+            then (match find rel_is_cardinal (rels f) with
+                  | Some r -> Some (GCardC ((r_min r), (r_max r)))
+                  | None -> None)
+            else if feat_is_mutex_group f then Some GMux else None
+
+(** val py_str : aval -> char list **)
+
+let rec py_str = function
+| VNone -> 'N'::('o'::('n'::('e'::[])))
+| VBool b ->
+  if b
+  then 'T'::('r'::('u'::('e'::[])))
+  else 'F'::('a'::('l'::('s'::('e'::[]))))
+| VInt z0 -> z_to_string z0
+| VFloat r -> r
+| VStr s -> append ('\''::[]) (append s ('\''::[]))
+| VList l ->
+  append ('['::[])
+    (append (str_join (','::(' '::[])) (map py_str l)) (']'::[]))
+| VMap _ -> '{'::('.'::('.'::('.'::('}'::[]))))
+
+(** val clafer_value : aval -> char list **)
+
+let clafer_value v = match v with
+| VNone -> []
+| VBool b ->
+  if b
+  then 't'::('r'::('u'::('e'::[])))
+  else 'f'::('a'::('l'::('s'::('e'::[]))))
+| VInt z0 -> z_to_string z0
+| VFloat r -> r
+| VStr s -> quote s
+| _ -> py_str v
+
+(** val clafer_type : aval -> char list **)
+
+let clafer_type = function
+| VBool _ -> 'b'::('o'::('o'::('l'::('e'::('a'::('n'::[]))))))
+| VInt _ -> 'i'::('n'::('t'::('e'::('g'::('e'::('r'::[]))))))
+| VFloat _ -> 'd'::('o'::('u'::('b'::('l'::('e'::[])))))
+| VStr _ -> 's'::('t'::('r'::('i'::('n'::('g'::[])))))
+| _ -> []
+
+(** val clafer_tree : feature option -> feature -> clf **)
+
+let rec clafer_tree p f = match f with
+| Feature (i, rs) ->
+  Clf ((clafer_group f), (w_safename i.f_name),
+    (negb (Nat.eqb (length i.f_attrs) O)), (feat_is_optional p f),
+    (map (fun a -> ((w_safename a.a_name), (clafer_value a.a_default)))
+      i.f_attrs),
+    (flat_map (fun r ->
+      let Relation (_, _, cs) = r in map (clafer_tree (Some f)) cs) rs))
+
+(** val clafer_operator : astop -> char list option **)
+
+let clafer_operator = function
+| REQUIRES -> Some ('='::('>'::[]))
+| AND -> Some ('&'::('&'::[]))
+| OR -> Some ('|'::('|'::[]))
+| XOR -> Some ('x'::('o'::('r'::[])))
+| IMPLIES -> Some ('='::('>'::[]))
+| NOT -> Some ('n'::('o'::('t'::[])))
+| EQUIVALENCE -> Some ('<'::('='::('>'::[])))
+| _ -> None
+
+(** val clafer_node : node -> cexpr result **)
+
+let rec clafer_node = function
+| Node (d, l, r) ->
+  let operand = fun c ->
+    match c with
+    | Some x ->
+      (match clafer_node x with
+       | Ok cx -> Ok (if is_op x then CxParen cx else cx)
+       | Err e -> Err e)
+    | None -> Err AttributeError
+  in
+  (match d with
+   | DOp o ->
+     (match o with
+      | NOT -> (match operand l with
+                | Ok a -> Ok (CxNot a)
+                | Err e -> Err e)
+      | _ ->
+        (match operand l with
+         | Ok a ->
+           (match operand r with
+            | Ok b ->
+              if astop_eqb o EXCLUDES
+              then Ok (CxBin (('='::('>'::[])), a, (CxNot b)))
+              else (match clafer_operator o with
+                    | Some s -> Ok (CxBin (s, a, b))
+                    | None -> Err KeyError)
+            | Err e -> Err e)
+         | Err e -> Err e))
+   | _ -> Ok (CxVar (w_safename (data_str d))))
+
+(** val clafer_attrdecls : fm -> (char list * char list) list **)
+
+let clafer_attrdecls m =
+  let all =
+    flat_map (fun f ->
+      map (fun a -> (a.a_name, (clafer_type a.a_default))) (info f).f_attrs)
+      (get_features m)
+  in
+  let d =
+    fold_left (fun acc kv -> dict_set acc (fst kv) (VStr (snd kv))) all []
+  in
+  map (fun kv -> ((w_safename (fst kv)),
+    (match snd kv with
+     | VStr s -> s
+     | _ -> []))) d
+
+(** val clafer_write : fm -> cdoc result **)
+
+let clafer_write m =
+  match mapM (fun c -> clafer_node c.c_ast) m.ctcs with
+  | Ok cs ->
+    Ok { cd_attrdecls = (clafer_attrdecls m); cd_root =
+      (clafer_tree None m.root); cd_ctcs = cs; cd_instance_of =
+      (w_safename (name m.root)) }
+  | Err e -> Err e
+
+(** val cl_name : clf -> char list **)
+
+let cl_name = function
+| Clf (_, n0, _, _, _, _) -> n0
+
+(** val cl_optional : clf -> bool **)
+
+let cl_optional = function
+| Clf (_, _, _, o, _, _) -> o
+
+(** val cl_none : (char list -> bool) -> clf -> bool **)
+
+let rec cl_none _UU03c3_ = function
+| Clf (_, n0, _, _, _, kids) ->
+  (&&) (negb (_UU03c3_ n0)) (forallb (cl_none _UU03c3_) kids)
+
+(** val group_bounds : cgroup -> nat -> z * z **)
+
+let group_bounds g n0 =
+  match g with
+  | GXor -> ((Zpos XH), (Zpos XH))
+  | GOr0 -> ((Zpos XH), (Z.of_nat n0))
+  | GMux -> (Z0, (Zpos XH))
+  | GCardC (a, b) -> (a, (if Z.eqb b (Zneg XH) then Z.of_nat n0 else b))
+
+(** val cl_sem : (char list -> bool) -> clf -> bool **)
+
+let rec cl_sem _UU03c3_ = function
+| Clf (g, n0, _, _, _, kids) ->
+  (&&) (_UU03c3_ n0)
+    (match g with
+     | Some gr ->
+       let (a, b) = group_bounds gr (length kids) in
+       let k = Z.of_nat (length (filter (fun d -> _UU03c3_ (cl_name d)) kids))
+       in
+       (&&) ((&&) (Z.leb a k) (Z.leb k b))
+         (forallb (fun d ->
+           if _UU03c3_ (cl_name d)
+           then cl_sem _UU03c3_ d
+           else cl_none _UU03c3_ d) kids)
+     | None ->
+       forallb (fun d ->
+         if _UU03c3_ (cl_name d)
+         then cl_sem _UU03c3_ d
+         else (&&) (cl_optional d) (cl_none _UU03c3_ d)) kids)
+
+(** val cx_eval : (char list -> bool) -> cexpr -> bool **)
+
+let rec cx_eval _UU03c3_ = function
+| CxVar s -> _UU03c3_ s
+| CxNot a -> negb (cx_eval _UU03c3_ a)
+| CxBin (op, a, b) ->
+  let x = cx_eval _UU03c3_ a in
+  let y = cx_eval _UU03c3_ b in
+  if eqb0 op ('&'::('&'::[]))
+  then (&&) x y
+  else if eqb0 op ('|'::('|'::[]))
+       then (||) x y
+       else if eqb0 op ('x'::('o'::('r'::[])))
+            then xorb x y
+            else if eqb0 op ('='::('>'::[]))
+                 then implb x y
+                 else if eqb0 op ('<'::('='::('>'::[])))
+                      then eqb x y
+                      else false
+| CxParen a -> cx_eval _UU03c3_ a
+
+(** val clafer_sat : (char list -> bool) -> cdoc -> bool **)
+
+let clafer_sat _UU03c3_ d =
+  (&&) (cl_sem _UU03c3_ d.cd_root) (forallb (cx_eval _UU03c3_) d.cd_ctcs)
+
+(** val render_cgroup : cgroup -> char list **)
+
+let render_cgroup = function
+| GXor -> 'x'::('o'::('r'::[]))
+| GOr0 -> 'o'::('r'::[])
+| GMux -> 'm'::('u'::('x'::[]))
+| GCardC (a, b) ->
+  append (z_to_string a) (append ('.'::('.'::[])) (card_star b))
+
+(** val render_clf : clf -> nat -> char list **)
+
+let rec render_clf c ntabs =
+  let Clf (g, n0, attributed, opt, actcs, kids) = c in
+  append (tabs0 ntabs)
+    (append
+      (match g with
+       | Some gr -> append (render_cgroup gr) (' '::[])
+       | None -> [])
+      (append n0
+        (append
+          (if attributed
+           then ' '::(':'::(' '::('A'::('t'::('t'::('r'::('i'::('b'::('u'::('t'::('e'::('d'::('F'::('e'::('a'::('t'::('u'::('r'::('e'::[])))))))))))))))))))
+           else [])
+          (append (if opt then ' '::('?'::[]) else [])
+            (append
+              (str_concat
+                (map (fun kv ->
+                  append nl
+                    (append (tabs0 (S ntabs))
+                      (append ('['::[])
+                        (append (fst kv)
+                          (append (' '::('='::(' '::[])))
+                            (append (snd kv) (']'::[]))))))) actcs))
+              (append nl
+                (str_concat (map (fun k -> render_clf k (S ntabs)) kids))))))))
+
+(** val render_cexpr : cexpr -> char list **)
+
+let rec render_cexpr = function
+| CxVar s -> s
+| CxNot a -> append ('n'::('o'::('t'::(' '::[])))) (render_cexpr a)
+| CxBin (op, a, b) ->
+  append (render_cexpr a)
+    (append (' '::[]) (append op (append (' '::[]) (render_cexpr b))))
+| CxParen a -> append ('('::[]) (append (render_cexpr a) (')'::[]))
+
+(** val render_clafer : cdoc -> char list **)
+
+let render_clafer d =
+  append
+    (match d.cd_attrdecls with
+     | [] -> []
+     | p :: l0 ->
+       append
+         ('a'::('b'::('s'::('t'::('r'::('a'::('c'::('t'::(' '::('A'::('t'::('t'::('r'::('i'::('b'::('u'::('t'::('e'::('d'::('F'::('e'::('a'::('t'::('u'::('r'::('e'::[]))))))))))))))))))))))))))
+         (append nl
+           (str_concat
+             (map (fun kv ->
+               append tab
+                 (append (fst kv)
+                   (append (' '::('-'::('>'::(' '::[]))))
+                     (append (snd kv) nl)))) (p :: l0)))))
+    (append nl
+      (append
+        ('a'::('b'::('s'::('t'::('r'::('a'::('c'::('t'::(' '::[])))))))))
+        (append (render_clf d.cd_root O)
+          (append
+            (str_concat
+              (map (fun e ->
+                append nl
+                  (append ('['::[]) (append (render_cexpr e) (']'::[]))))
+                d.cd_ctcs))
+            (append nl
+              (append nl
+                (append ('C'::('P'::(' '::(':'::(' '::[])))))
+                  (append d.cd_instance_of nl))))))))
+
+(** val clafer_text : fm -> char list result **)
+
+let clafer_text m =
+  match clafer_write m with
+  | Ok d -> Ok (render_clafer d)
+  | Err e -> Err e
 
 (** val metric_methods : char list list **)
 
@@ -10314,6 +11026,39 @@ let e_entry e =
     (e_opt e_z e.me_ratio) :: ((e_opt (fun x -> SStr x) e.me_parent) :: (
     (e_z e.me_level) :: [])))))))
 
+(** val e_sels : char list list list -> sexp **)
+
+let e_sels l =
+  SList (map (fun s -> SList (map (fun x -> SStr x) s)) l)
+
+(** val op_export_sat : fm -> sexp **)
+
+let op_export_sat m =
+  let subsets = all_subsets (names m.root) in
+  e_tag
+    ('e'::('x'::('p'::('o'::('r'::('t'::('_'::('s'::('a'::('t'::[]))))))))))
+    ((e_tag ('s'::('p'::('l'::('o'::('t'::[])))))
+       ((e_result (fun d ->
+          e_sels
+            (filter (fun sel ->
+              (&&) (sigma_of sel (name m.root)) (sxfm_sat (sigma_of sel) d))
+              subsets)) (splot_write m)) :: [])) :: ((e_tag ('p'::('l'::[]))
+                                                       ((e_result (fun d ->
+                                                          e_sels
+                                                            (filter
+                                                              (fun sel ->
+                                                              pl_sat
+                                                                (sigma_of sel)
+                                                                d) subsets))
+                                                          (pl_write m)) :: [])) :: (
+    (e_tag ('c'::('l'::('a'::('f'::('e'::('r'::[]))))))
+      ((e_result (fun d ->
+         e_sels
+           (filter (fun sel ->
+             clafer_sat (fun n0 ->
+               existsb (fun s -> eqb0 (w_safename s) n0) sel) d) subsets))
+         (clafer_write m)) :: [])) :: [])))
+
 (** val bad : char list -> sexp **)
 
 let bad msg =
@@ -10754,6 +11499,108 @@ let dispatch = function
                                                                     | None ->
                                                                     bad
                                                                     ('a'::('d'::('o'::('c'::[])))))
+                                                                    | _ :: _ ->
+                                                                    bad
+                                                                    ('a'::('r'::('i'::('t'::('y'::[])))))))
+                                                                    else 
+                                                                    if 
+                                                                    eqb0 op
+                                                                    ('s'::('p'::('l'::('o'::('t'::('_'::('t'::('e'::('x'::('t'::[]))))))))))
+                                                                    then 
+                                                                    (match args with
+                                                                    | [] ->
+                                                                    bad
+                                                                    ('a'::('r'::('i'::('t'::('y'::[])))))
+                                                                    | m :: l0 ->
+                                                                    (match l0 with
+                                                                    | [] ->
+                                                                    (match 
+                                                                    d_fm m with
+                                                                    | Some m' ->
+                                                                    e_result
+                                                                    (fun x ->
+                                                                    SStr x)
+                                                                    (splot_text
+                                                                    m')
+                                                                    | None ->
+                                                                    bad
+                                                                    ('f'::('m'::[])))
+                                                                    | _ :: _ ->
+                                                                    bad
+                                                                    ('a'::('r'::('i'::('t'::('y'::[])))))))
+                                                                    else 
+                                                                    if 
+                                                                    eqb0 op
+                                                                    ('p'::('l'::('_'::('l'::('i'::('n'::('e'::('s'::[]))))))))
+                                                                    then 
+                                                                    (match args with
+                                                                    | [] ->
+                                                                    bad
+                                                                    ('a'::('r'::('i'::('t'::('y'::[])))))
+                                                                    | m :: l0 ->
+                                                                    (match l0 with
+                                                                    | [] ->
+                                                                    (match 
+                                                                    d_fm m with
+                                                                    | Some m' ->
+                                                                    e_result
+                                                                    (e_list
+                                                                    (fun x ->
+                                                                    SStr x))
+                                                                    (pl_lines
+                                                                    m')
+                                                                    | None ->
+                                                                    bad
+                                                                    ('f'::('m'::[])))
+                                                                    | _ :: _ ->
+                                                                    bad
+                                                                    ('a'::('r'::('i'::('t'::('y'::[])))))))
+                                                                    else 
+                                                                    if 
+                                                                    eqb0 op
+                                                                    ('c'::('l'::('a'::('f'::('e'::('r'::('_'::('t'::('e'::('x'::('t'::[])))))))))))
+                                                                    then 
+                                                                    (match args with
+                                                                    | [] ->
+                                                                    bad
+                                                                    ('a'::('r'::('i'::('t'::('y'::[])))))
+                                                                    | m :: l0 ->
+                                                                    (match l0 with
+                                                                    | [] ->
+                                                                    (match 
+                                                                    d_fm m with
+                                                                    | Some m' ->
+                                                                    e_result
+                                                                    (fun x ->
+                                                                    SStr x)
+                                                                    (clafer_text
+                                                                    m')
+                                                                    | None ->
+                                                                    bad
+                                                                    ('f'::('m'::[])))
+                                                                    | _ :: _ ->
+                                                                    bad
+                                                                    ('a'::('r'::('i'::('t'::('y'::[])))))))
+                                                                    else 
+                                                                    if 
+                                                                    eqb0 op
+                                                                    ('e'::('x'::('p'::('o'::('r'::('t'::('_'::('s'::('a'::('t'::[]))))))))))
+                                                                    then 
+                                                                    (match args with
+                                                                    | [] ->
+                                                                    bad
+                                                                    ('a'::('r'::('i'::('t'::('y'::[])))))
+                                                                    | m :: l0 ->
+                                                                    (match l0 with
+                                                                    | [] ->
+                                                                    (match 
+                                                                    d_fm m with
+                                                                    | Some m' ->
+                                                                    op_export_sat
+                                                                    m'
+                                                                    | None ->
+                                                                    bad
+                                                                    ('f'::('m'::[])))
                                                                     | _ :: _ ->
                                                                     bad
                                                                     ('a'::('r'::('i'::('t'::('y'::[])))))))
